@@ -1,32 +1,70 @@
 (* C14 - every block comment has at most one owner, chosen by the documented rules.
 
-   Proved (all inputs, all histories): the ownership invariant
-     OwnInv: every block comment of the store is referenced by <= 1 slot of the ownership table and its claimed
-             flag is set iff it is referenced by exactly one,
-   is kept by claim_leading/claim_trailing (any start token, either ignore mode, with or without the
-   indentation-class test) and unclaim_leading/unclaim_trailing, and by every history of them; a comment claimed
-   as leading/trailing comment was unclaimed, is a block comment of the store and (repaired code) is in the
-   indentation class of the model.
+   State: (token list, ownership table); calls: claim_/unclaim_ leading/trailing (`OS`), claim_/unclaim_
+   interleaving comments (`OClaimInter`/`OUnclaimInter`); auto_claim_comments is the sequence of such calls the
+   generated code emits (all with ignore_if_already_claimed=True / no explicit comment list: `is_auto_op`).
+   Inv = token ids unique (the store invariant of C07) /\ OwnInv (every block comment is referenced by <= 1 slot
+   and its claimed flag is set iff it is referenced by exactly one) /\ leading/trailing slots hold <= 1 comment.
+   Every hypothesis below is a boolean evaluated by the harness on every trace of the implementation
+   (CommentsRun.hyp_case): inv_b on every parsed state, op_ok before every call (the item list handed to the
+   claimer is the table's, and its items lie in store order behind the field's placeholder), auto_ok in a repeated
+   auto-claim, adjacent_comment before an unclaim+claim.
 
-   Full statement wanted, of which the theorems below are the part proved (hence `_partial`):
-     C14_unique        : OwnInv is also kept by claim_interleaving_comments / unclaim_interleaving_comments /
-                         auto_claim_comments.  Missing: that the comments collected by _find_outer/_find_inner are
-                         pairwise distinct (needs the geometric invariant "items lie in store order after the
-                         placeholder"); validated on every trace by the correspondence and the ownership monitor.
-     C14_rule          : auto-claim = the documented order as a function of the line layout.  Proved here only as
-                         the token-level characterisation C14_claimed_is_adjacent_partial; the line-level rule is
-                         evaluated by the monitor `rule_check` (independent oracle on generated layouts).
-     C14_idempotent, C14_parse_then_claim, C14_unclaim_claim : monitors only (need the whole-tree traversal).
-   Refuted on the unrepaired code by the monitors, see fixes/c14-*.md. *)
-From AB Require Import Prelude Comments CommentsProofs.
+   Still partial:
+     C14_unclaim_claim_interleaving_partial : unclaim_interleaving_comments(cs) then claim_interleaving_comments(cs)
+        gives back the same entries (as a multiset; their order is the store order) and the same flags, *if the
+        claim is accepted*. Missing: that it is accepted (no ValueError), which needs the position of the comments
+        relative to the model's first/last token; evaluated by the monitor C14:unclaim-claim.
+        (C14_unclaim_claim_surrounding, the leading/trailing half, is complete.)
+     C14_idempotent_partial : under the hypothesis that every block comment of the store is claimed (what the first
+        File.auto_claim_comments establishes: monitor C14:unowned-after-parse; not proved because it needs the
+        whole-tree traversal). Does not speak about auto_claim_comments of a sub-model while comments elsewhere
+        are unclaimed.
+     C14_rule_local_partial : the attribution rule for ONE surrounding claim, both directions: the call returns
+        exactly claim_spec = "the block comment exactly one line break away (only placeholders otherwise), of the
+        model's indentation class, if not yet claimed" (+ _sound/_complete forms with the resulting document).
+        Missing: attrib_spec over whole line layouts (priority leading > trailing > standalone across models, and
+        the standalone fall-through) - evaluated by the monitor `rule_check` on every generated layout, excluding
+        the known-finding layout (transaction with meta but no postings, C14:rule:empty-postings-claim-first). *)
+From AB Require Import Prelude Comments CommentsProofs CommentsOwn CommentsRestore.
 
-Theorem C14_unique_step_partial : forall st o, Inv st -> Inv (sstep st o).
-Proof. exact sstep_inv. Qed.
+Theorem C14_unique_step : forall st o, Inv st -> op_ok st o = true -> Inv (cstep st o).
+Proof. exact cstep_inv. Qed.
 
-Theorem C14_unique_history_partial : forall ops st, Inv st -> Inv (fold_left sstep ops st).
-Proof. exact shistory_inv. Qed.
+Theorem C14_unique_history : forall ops st, Inv st -> hist_ok ops st = true -> Inv (fold_left cstep ops st).
+Proof. exact chistory_inv. Qed.
 
-Theorem C14_claimed_is_adjacent_partial : forall d start bw ig ind r d',
+Theorem C14_inv_b_sound : forall st, inv_b st = true -> Inv st.
+Proof. exact inv_b_ok. Qed.
+
+Theorem C14_unclaim_claim_surrounding : forall (lead : bool) d tb n start ig ind c,
+  NoDup (ids d) ->
+  adjacent_comment d start lead ind = Some c -> t_claimed c = true ->
+  tget tb (if lead then SLead n else STrail n) = [t_id c] ->
+  let st' := sstep (sstep (d, tb) (if lead then UnclaimLead n else UnclaimTrail n))
+                   (if lead then ClaimLead n start ig ind else ClaimTrail n start ig ind) in
+  teq (snd st') tb /\ Permutation.Permutation (fst st') d.
+Proof. exact sstep_unclaim_claim_b. Qed.
+
+Theorem C14_unclaim_claim_interleaving_partial : forall d tb r items flt un kept d1 ph items2 mf ml ret its d2,
+  Inv (d, tb) -> refs_ok_b d items = true -> old_comments items = tget tb (SRep r) ->
+  unclaim_inter d items flt = (Ok (un, kept), d1) ->
+  map oitem_of items2 = kept -> items_ordered_b d1 ph items2 = true ->
+  claimer_claim d1 ph items2 mf ml (Some un) = (Ok (ret, its), d2) ->
+  (forall c, count_z c (comments_of its) = count_z c (old_comments items)) /\ Permutation.Permutation d2 d.
+Proof. exact inter_unclaim_claim. Qed.
+
+Theorem C14_rule_local_partial : forall d start bw ig ind,
+  NoDup (ids d) -> walk d start bw <> None ->
+  fst (claim_comment None d start bw ig ind) = claim_spec d start bw ig ind.
+Proof. exact claim_comment_is_spec. Qed.
+
+Theorem C14_idempotent_partial : forall ops st,
+  Inv st -> all_claimed (fst st) -> hist_auto_ok ops st = true ->
+  fst (fold_left cstep ops st) = fst st /\ teq (snd (fold_left cstep ops st)) (snd st).
+Proof. exact auto_history_noop. Qed.
+
+Theorem C14_rule_local_sound_partial : forall d start bw ig ind r d',
   NoDup (ids d) -> claim_comment None d start bw ig ind = (r, d') ->
   (d' = d /\ (r = Ok None \/ exists e, r = Err e)) \/
   (exists t d2, r = Ok (Some (t_id t)) /\ In t d /\ is_comment t = true /\ t_claimed t = false /\
@@ -34,9 +72,25 @@ Theorem C14_claimed_is_adjacent_partial : forall d start bw ig ind r d',
                 match ind with Some b => comment_indented t = b | None => True end).
 Proof. exact claim_comment_cases. Qed.
 
-(* non-vacuity: the invariant holds of a concrete store with an empty table, and a claim changes the table *)
+Theorem C14_rule_local_complete_partial : forall d start bw ig ind first w' ign1 nl ign2 c rest,
+  NoDup (ids d) ->
+  walk d start bw = Some (first :: w') ->
+  first :: w' = ign1 ++ nl :: ign2 ++ c :: rest ->
+  forallb is_ph ign1 = true -> forallb is_ph ign2 = true -> is_nl nl = true -> is_comment c = true ->
+  t_claimed c = false -> match ind with Some b => comment_indented c = b | None => True end ->
+  exists d2, Permutation.Permutation d2 d /\
+    claim_comment None d start bw ig ind = (Ok (Some (t_id c)), set_claimed (t_id c) true d2).
+Proof. exact claim_comment_complete. Qed.
+
+(* non-vacuity: the invariant holds of a concrete store with an empty table, a claim changes the table, the
+   hypotheses of the history theorem are satisfiable by a history that uses the interleaving claimer *)
 Example C14_nonvacuous :
   Inv (ex_doc, []) /\
   snd (sstep (ex_doc, []) (ClaimTrail 1 3 false (Some false))) = [(STrail 1, [6])] /\
-  snd (sstep (ex_doc, []) (ClaimTrail 1 3 false (Some true))) = [(STrail 1, [])].
-Proof. split; [exact ex_inv | split; vm_compute; reflexivity]. Qed.
+  snd (sstep (ex_doc, []) (ClaimTrail 1 3 false (Some true))) = [(STrail 1, [])] /\
+  (let ops := [OClaimInter 9 1 [mkitem false 7 2 4] 1 8 None; OUnclaimInter 9 [mkitem false 7 2 4; mkitem true 6 6 6] None;
+               OS (ClaimTrail 7 4 true None); OS (UnclaimTrail 7); OS (ClaimTrail 7 4 true None)] in
+   hist_ok ops (ex_doc, []) = true /\
+   snd (fold_left cstep ops (ex_doc, [])) = [(SRep 9, []); (STrail 7, [6])]) /\
+  adjacent_comment ex_doc 3 false (Some false) = Some (mktok 6 KBlockComment [59; 32; 99] false).
+Proof. split; [exact ex_inv | repeat split; vm_compute; reflexivity]. Qed.
